@@ -40,6 +40,32 @@ Section GridGen.
   (* angular division: ntheta uniform steps, last entry assigned 2 pi (passed in as tau) *)
   Definition uniform_angles (tau : S) (n : nat) : list S :=
     map (fun i => of_nat i * (tau / of_nat n)) (seq 0 n) ++ [tau].
+
+  (* the constructor's radial output for anisotropic_factor = 0 *)
+  Definition gen_radii_uniform (R0 R : S) (nr_exp dv : nat) : list S :=
+    divide_vector (refine_mid (uniform_radii R0 R (Nat.pow 2 (nr_exp - 1) + 1))) dv.
+  Definition gen_angles (tau : S) (n dv : nat) : list S := divide_vector (uniform_angles tau n) dv.
+
+  (* ---- executable validity predicates, evaluated on the implementation's output (as exact rationals) ---- *)
+  Definition sle_abs (x eps : S) : bool := negb (sltb eps (sabs x)).
+  Fixpoint increasing_b (l : list S) : bool :=
+    match l with a :: ((b :: _) as rest) => sltb a b && increasing_b rest | _ => true end.
+  Fixpoint midpoints_b (eps : S) (l : list S) : bool :=
+    match l with
+    | a :: m :: ((b :: _) as rest2) => sle_abs (m - shalf * (a + b)) eps && midpoints_b eps rest2
+    | _ => true
+    end.
+  Fixpoint close_b (eps : S) (l1 l2 : list S) : bool :=
+    match l1, l2 with
+    | [], [] => true
+    | x :: r1, y :: r2 => sle_abs (x - y) eps && close_b eps r1 r2
+    | _, _ => false
+    end.
+  Definition radii_valid_b (R0 R eps : S) (l : list S) : bool :=
+    match l with
+    | [] => false
+    | a :: _ => seqb a R0 && seqb (last l s0) R && increasing_b l && midpoints_b eps l
+    end.
 End GridGen.
 
 (* ---- integer part of RadialAnisotropicDivision ----
@@ -57,6 +83,17 @@ Definition aniso_indices (nr_exp a p : Z) : option aniso :=
     let nref := if nr - Z.quot nref0 2 <? p then 2 ^ (Z.log2 (nr - p) + 1) else nref0 in
     let se := p - Z.quot nref 2 in
     Some (mkAniso nequi nr nref se (se + nref)).
+
+(* the function as it is now: the window must fit (std::invalid_argument otherwise) *)
+Definition aniso_accept (nr_exp a p : Z) : option aniso :=
+  match aniso_indices nr_exp a p with
+  | Some x => if (an_se x <? 0) || (an_nr x <? an_ee x) then None else Some x
+  | None => None
+  end.
+
+(* size of the result for a refined set of [s] points, and the three output segments:
+   r_temp[0 .. se), r_temp[se .. se+s), r_temp[se+s .. se+s + (nequi-ee+1)) *)
+Definition aniso_out_size (x : aniso) (s : Z) : Z := an_nequi x - an_nref x + s + 1.
 
 (* every index the three copy loops and the set-filling loops use:
    reads  r_temp2[se + i], 0 <= i < nref;  r_temp2[ee + i], 0 <= i <= nequi - ee;  r_temp2[i], 0 <= i < se
